@@ -22,6 +22,7 @@ import AgVerif.Proof.Translate
 import AgVerif.Model.LitCtx
 import AgVerif.Proof.JExprMain
 import AgVerif.Proof.JExprSem
+import AgVerif.Proof.JExprInj
 
 namespace AgVerif.C21
 open AgVerif.Translate AgVerif.JavaSem
@@ -188,6 +189,15 @@ theorem constant_printed_denotes (v : Int) (long : Bool) :
 theorem print_tokens_injective (e₁ e₂ : JExpr.DExpr) (h₁ : JExpr.WF e₁) (h₂ : JExpr.WF e₂)
     (h : JExpr.print e₁ = JExpr.print e₂) : JExpr.toJava e₁ = JExpr.toJava e₂ :=
   JExpr.print_determines_tree e₁ e₂ h₁ h₂ h
+
+/-- on the fragment without class names, field access and invocations (constants, variables, parameters, `this`,
+    binary / unary operations, both kinds of cast, comparisons, `Long.compare`, array access / length / creation) the
+    printed lexemes determine the IR expression ITSELF: the Writer's text is injective there.  (With class names it cannot
+    be: `a.b.c` is the static field `c` of class `a.b` and the instance field `c` of the static field `a.b` — the same Java
+    expression, which is what `print_tokens_injective` says in general.) -/
+theorem print_injective_plain (e₁ e₂ : JExpr.DExpr) (h₁ : JExpr.WF e₁) (h₂ : JExpr.WF e₂)
+    (p₁ : JExpr.plain e₁ = true) (p₂ : JExpr.plain e₂ = true) (h : JExpr.print e₁ = JExpr.print e₂) : e₁ = e₂ :=
+  JExpr.print_injective_plain e₁ e₂ h₁ h₂ p₁ p₂ h
 
 /-- every expression of the arithmetic fragment the soundness theorems above talk about (no comparison below the top),
     seen as an IR tree (`JExpr.ofExpr`; its lexemes are tied to `printExpr` and to the real Writer on every run), is well
